@@ -14,7 +14,7 @@ import (
 //verif:include zz_verif_model.go
 //verif:harness H07_buckets property=C07 native=no quick=n=3;n=4;n=5 thorough=n=6;n=7
 //verif:harness H07_builder property=C07 native=no quick=n=3;n=4 thorough=n=5
-//verif:harness H07_compile property=C07 native=no quick=lines=3,builder=1,workers=2,sched=0;lines=3,builder=0,workers=2,sched=0 thorough=lines=4,builder=1,workers=3,sched=0;lines=4,builder=0,workers=2,sched=0;lines=1,builder=0,workers=2,sched=1
+//verif:harness H07_compile property=C07 native=no quick=lines=3,builder=1,workers=2,sched=0;lines=3,builder=0,workers=2,sched=0 thorough=lines=4,builder=1,workers=3,sched=0;lines=4,builder=0,workers=2,sched=0
 //verif:subst H07_compile github.com/facebookincubator/dns/dnsrocks/dnsdata/rdb.NewBuilder github.com/facebookincubator/dns/dnsrocks/dnsdata/rdb.verifNewBuilder
 //verif:subst H07_compile github.com/facebookincubator/dns/dnsrocks/dnsdata/rdb.NewRDB github.com/facebookincubator/dns/dnsrocks/dnsdata/rdb.verifNewRDBStub
 
